@@ -238,6 +238,19 @@ func (e *Engine) ensureSpecDef(sf *SpecFun, env *SpecEnv) {
 		return
 	}
 	rd.body = body.T
+	// opaque, non-recursive definitions also get a quantified definitional axiom (safe: no matching
+	// loop), so that solver-introduced skolem instances unfold too
+	if sf.Opaque && !sf.Rec && len(rd.params) > 0 {
+		var args []*Term
+		m := map[string]*Term{}
+		for _, p := range rd.params {
+			b := Var("df$"+p.Op, p.Sort)
+			args = append(args, b)
+			m[p.Op] = b
+		}
+		app := App(rd.name, body.T.Sort, args...)
+		e.reg.AddAxiom(rd.name, "def:"+sf.Name, Forall(args, Eq(app, rd.body.Subst(m)), []*Term{app}), 0)
+	}
 }
 
 // unfoldRecDefs returns definitional instances for ground applications of recursive spec functions.
